@@ -53,7 +53,35 @@ def cases(tier, seed):
                     if tier == "quick" and fr == "1/2" and form in ("conv_mc_nc", "conv_sc_nc", "gradnorm", "general", "poly2") and N % 3:
                         continue
                     out.append(dict(kind="nl", form=form, D=D, N=N, frac=fr, rs=[seed, env.crc(form), D, N, env.crc(fr)], cost=(4 * N) ** D / 1e3 + 1))
+    # the stored band of every grid size of a range (construction only, cheap): size-specific slips (finding F13: N = 49, 103, 187) cannot hide between sampled sizes
+    top1, top2 = (330, 40) if tier == "quick" else (1100, 72)
+    for lo in range(3, top1, 64):
+        out.append(dict(kind="masksweep", D=1, lo=lo, hi=min(top1, lo + 64), rs=[seed, 9, 1, lo], cost=3))
+    for lo in range(3, top2, 12):
+        out.append(dict(kind="masksweep", D=2, lo=lo, hi=min(top2, lo + 12), rs=[seed, 9, 2, lo], cost=3))
     return out
+
+
+def run_masksweep(case, bus, ex):
+    from fractions import Fraction
+    D = case["D"]
+    nf = ex.nonlin_fun
+    kinds = [("conv", lambda N, dop, fr: nf.ConvectionNonlinearFun(D, N, derivative_operator=dop, dealiasing_fraction=fr, scale=1.0, single_channel=False, conservative=False)),
+             ("gradnorm", lambda N, dop, fr: nf.GradientNormNonlinearFun(D, N, derivative_operator=dop, dealiasing_fraction=fr, scale=1.0, zero_mode_fix=True)),
+             ("poly", lambda N, dop, fr: nf.PolynomialNonlinearFun(D, N, dealiasing_fraction=fr, coefficients=(0.0, 0.0, 1.0)))]
+    for N in range(case["lo"], case["hi"]):
+        dop = ex.spectral.build_derivative_operator(D, 1.0, N)
+        kr = G.kint_rfft(D, N)
+        name, mk = kinds[N % 3]
+        for fs in ("2/3", "1/2", "1"):
+            fun = mk(N, dop, float(Fraction(fs)))
+            bus.tap("nonlinear_fun.__init__")
+            K = A.documented_cutoff(N, Fraction(fs))
+            want = np.all(np.abs(kr) <= K, axis=0) if K >= 0 else np.zeros(kr.shape[1:], bool)
+            got = np.asarray(fun.dealiasing_mask)[0]
+            bad = int(np.sum(got != want)) if got.shape == want.shape else -1
+            bus.judge("band_cutoff", float(abs(bad)), 0.5, ("sweep", name, D, fs, N % 6, N // 64), witness=dict(form=name, D=D, N=N, frac=fs, K_documented=K, mismatching_modes=bad, note="construction-only sweep over all N"),
+                      nontrivial=K >= 1)
 
 
 def build(ex, form, D, N, L, frac, rng):
@@ -116,6 +144,8 @@ def rfft_to_full_norm(rh, D, N):
 def run_case(case, bus, ex):
     import jax.numpy as jnp
     from fractions import Fraction
+    if case["kind"] == "masksweep":
+        return run_masksweep(case, bus, ex)
     rng = env.rng_for(*case["rs"])
     form, D, N = case["form"], case["D"], case["N"]
     frac = float(Fraction(case["frac"]))
